@@ -33,6 +33,9 @@ BUILT = {
  "C11": ("exploration", "runtime monitor: history + executable abstract model of the named-files store, replayed operation by operation against the real FileManager; disk state, manifests and hash snapshots of every stored version compared after each step, from the same and from a fresh instance",
          "All canonical (up to renaming) operation histories of length 4 (quick) / 5 (thorough) over add / mutate source / remove / new instance plus random long histories are executed for real; after every operation the current version's bytes and hash-name, the manifest entries, the fingerprint and every version ever stored are checked against the model.",
          "40-line abstract model written from the property statement; hashlib.sha256", "DESIGN.md#c11"),
+ "C12": ("exploration", "runtime monitor: history + executable abstract model of the named-paths store replayed against the real PathsManager; round trip, identity selections and manifest checked after each operation from the same and a fresh instance",
+         "Generated member texts (comments before/after/both, inner comments, hostile string literals, six identity keys in any combination) in lists of 1-5, histories of add / identical re-add / replace / remove / new instance: get_named_paths must return the list strip-equal and in order, 'name#id', '$name.csvpaths.id', ':from', ':to' must select exactly by the identity the harness generated, and the manifest must gain one entry (sha256 of the stored group file) per content change.",
+         "identity computed by the generator from the metadata it wrote; storage separator text excluded from literals", "DESIGN.md#c12"),
  "C13": ("exploration", "runtime monitor: trace-specification checking ('no component / line evaluated after stop or skip fires', 'advance(n) lines have no effects', 'last() fires once on the final line') on LineEvent + EvalEvent hooks, plus the reference evaluator",
          "Systematic product of control form x position x firing line x scan window x blank layout (about 20k real runs) plus random two-control / onmatch programs; per line the pushes that happened, the components evaluated, matches and counters are compared with the documented behaviour. Known findings F9/F9b attributed by exact emulation.",
          "reference semantics from stop.md/advance.md/last.md; A1 corner (scan window ending on a blank record) not decided", "DESIGN.md#c13"),
